@@ -514,7 +514,9 @@ theorem cond_main (c : CCtx) (L : Expr → Bool) : ∀ (e : Expr), inClass c e =
             simp at h
             obtain ⟨rfl, rfl⟩ := h
             simp only [FoldSound, hlog, if_false, htl', htr', Bool.false_eq_true, or_self] at hf
-            exact cond_plain c L op l r hand hor htl' htr' hc hf
+            have hc' : (stablePred l r || (reduce c.r (.binary op l r)).isBoolLit) = true := by
+              cases hp : isPredOp op <;> cases hs : stablePred l r <;> simp_all
+            exact cond_plain c L op l r hand hor htl' htr' hc' hf
   | .paren e, hc, hf, res, tr, h => by
     simp only [inClass] at hc
     simp only [FoldSound] at hf
